@@ -32,6 +32,9 @@ def run(rep, tier, seed, replay):
                 "non-trivial = built, contains a pattern token, and decided (equal, or attributed to a listed finding)")
     exprs = lib.inputs(rep, "C01", tier, seed, 1500, 20000, replay)
     if replay is None:
+        import gen as _ger
+        exprs += [e for e in _ger.exact_repetition_family() if e not in set(exprs)]
+    if replay is None:
         import gen as _gfc
         exprs += [e for e in _gfc.flag_class_family() if e not in set(exprs)]
     if replay is None:
